@@ -293,3 +293,128 @@ Proof. split; [vm_compute; reflexivity|eexists; vm_compute; reflexivity]. Qed.
 Example C05_ai_max_needed :
   (do n <- ai_init (2 * AISZ); do n' <- ai_step_loose n AiTab; ai_step_loose n' AiTab) = OobWr.
 Proof. vm_compute. reflexivity. Qed.
+
+(* ======================================================================================== *)
+(* fourth part (TrEx.v): the scanners of the ex command line as C TEXT.  tools/c2clite.py translates
+   ex_loc, ex_cmd and ex_arg of /repo's ex.c into terms of the checked C semantics CLite.v
+   (GenCFuncs.v: every load and store outside its block is the error EOob, never a default value);
+   the theorems below are about those terms, so a change of the C functions changes the statement
+   that has to be proved.  They tie the models ex_loc / ex_cmd / ex_arg of CapDefs.v, about which
+   C05_ex_parts_fit speaks, to the text by proof instead of by testing. *)
+From NV Require CLite CLiteProps GenCFuncs TrEx.
+
+(* ex_loc(src, loc) for EVERY memory m in which block bs holds a command line s shorter than EXLEN
+   (any bytes) and its terminator, block bd -- the array loc -- has exactly EXLEN cells with any
+   contents, and the address-character literal of ex_loc is where the program put it; from every
+   start position i: the call returns a value -- every load was inside the line and its terminator and
+   every store inside loc[EXLEN] --, the pointer returned is src + the count of the model, loc holds the
+   model's output as a C string in front of its untouched cells, every other block is unchanged, and
+   the output is no longer than what was consumed, hence shorter than EXLEN *)
+Theorem C05_tr_ex_loc : forall (m : CLite.mem) bs bd s (blk : CLite.block) i d fuel,
+  CLiteProps.str_at m bs s -> CLiteProps.bytes_lt256 s ->
+  nth_error m bd = Some blk -> Z.of_nat (length blk) = EXLEN -> bs <> bd ->
+  nth_error m TrEx.G_exloc = Some TrEx.gb_exloc -> TrEx.G_exloc <> bd ->
+  (Z.of_nat (length s) < EXLEN)%Z -> (i <= length s)%nat -> (2 * S (length s) <= fuel)%nat ->
+  exists i' w, ex_loc s i (newbuf excap) = Ok (i', w) /\
+    CLite.callf GenCFuncs.cprog fuel (S d) GenCFuncs.F_ex_loc [CLite.VPtr bs (Z.of_nat i); CLite.VPtr bd 0%Z] m
+    = CLite.Ok (CLite.VPtr bs (Z.of_nat i'),
+                CLiteProps.upd m bd (TrEx.cstr_cells (wstr w) ++ skipn (S (length (wstr w))) blk)) /\
+    (i <= i')%nat /\ (i' <= length s)%nat /\ (length (wstr w) <= i' - i)%nat /\ (length (wstr w) < length blk)%nat.
+Proof. exact TrEx.ex_loc_safe. Qed.
+Print Assumptions C05_tr_ex_loc.
+
+(* ex_cmd(src, cmd): the same for cmd[EXLEN]; the name is at most 17 bytes *)
+Theorem C05_tr_ex_cmd : forall (m : CLite.mem) bs bd s (blk : CLite.block) i d fuel,
+  CLiteProps.str_at m bs s -> CLiteProps.bytes_lt256 s ->
+  nth_error m bd = Some blk -> Z.of_nat (length blk) = EXLEN -> bs <> bd ->
+  (Z.of_nat (length s) < EXLEN)%Z -> (i <= length s)%nat -> (S (length s) <= fuel)%nat ->
+  exists i' w, ex_cmd s i (newbuf excap) = Ok (i', w) /\
+    CLite.callf GenCFuncs.cprog fuel (S d) GenCFuncs.F_ex_cmd [CLite.VPtr bs (Z.of_nat i); CLite.VPtr bd 0%Z] m
+    = CLite.Ok (CLite.VPtr bs (Z.of_nat i'),
+                CLiteProps.upd m bd (TrEx.cstr_cells (wstr w) ++ skipn (S (length (wstr w))) blk)) /\
+    (i <= i')%nat /\ (i' <= length s)%nat /\ (length (wstr w) <= i' - i)%nat /\ (length (wstr w) <= 17)%nat.
+Proof. exact TrEx.ex_cmd_safe. Qed.
+Print Assumptions C05_tr_ex_cmd.
+
+(* ex_arg(src, arg, excmd): the same for arg[EXLEN], for every command name e in a third block (its
+   first two bytes select the branch: shell commands, the s/&/~ delimiter rule, plain arguments) *)
+Theorem C05_tr_ex_arg : forall (m : CLite.mem) bs bd be s e (blk : CLite.block) i d fuel,
+  CLiteProps.str_at m bs s -> CLiteProps.bytes_lt256 s ->
+  nth_error m bd = Some blk -> Z.of_nat (length blk) = EXLEN -> bs <> bd ->
+  CLiteProps.str_at m be e -> CLiteProps.bytes_lt256 e -> be <> bd ->
+  (Z.of_nat (length s) < EXLEN)%Z -> (i <= length s)%nat -> (S (length s) <= fuel)%nat ->
+  exists i' w, ex_arg s i (newbuf excap) (ch0 e) (ch1 e) = Ok (i', w) /\
+    CLite.callf GenCFuncs.cprog fuel (S d) GenCFuncs.F_ex_arg
+      [CLite.VPtr bs (Z.of_nat i); CLite.VPtr bd 0%Z; CLite.VPtr be 0%Z] m
+    = CLite.Ok (CLite.VPtr bs (Z.of_nat i'),
+                CLiteProps.upd m bd (TrEx.cstr_cells (wstr w) ++ skipn (S (length (wstr w))) blk)) /\
+    (i <= i')%nat /\ (i' <= length s)%nat /\ (length (wstr w) <= i' - i)%nat /\ (length (wstr w) < length blk)%nat.
+Proof. exact TrEx.ex_arg_safe. Qed.
+Print Assumptions C05_tr_ex_arg.
+
+(* the tie itself, for a destination of ANY size and a line of any length: whenever the model, writing into
+   a buffer as large as the destination block, returns a value (no OobRd, OobWr, NoFuel), the C text returns
+   the model's position and has stored exactly the bytes the model recorded (as chars), nothing else *)
+Theorem C05_tr_ex_scanners_refine_model : forall (m : CLite.mem) bs bd s (blk : CLite.block) i i' w d fuel,
+  CLiteProps.str_at m bs s -> CLiteProps.bytes_lt256 s -> nth_error m bd = Some blk -> bs <> bd ->
+  (2 * S (length s) <= fuel)%nat ->
+  (nth_error m TrEx.G_exloc = Some TrEx.gb_exloc -> TrEx.G_exloc <> bd ->
+   ex_loc s i (newbuf (length blk)) = Ok (i', w) ->
+   CLite.callf GenCFuncs.cprog fuel (S d) GenCFuncs.F_ex_loc [CLite.VPtr bs (Z.of_nat i); CLite.VPtr bd 0%Z] m
+   = CLite.Ok (CLite.VPtr bs (Z.of_nat i'), CLiteProps.upd m bd (TrEx.dblock w blk))) /\
+  (ex_cmd s i (newbuf (length blk)) = Ok (i', w) ->
+   CLite.callf GenCFuncs.cprog fuel (S d) GenCFuncs.F_ex_cmd [CLite.VPtr bs (Z.of_nat i); CLite.VPtr bd 0%Z] m
+   = CLite.Ok (CLite.VPtr bs (Z.of_nat i'), CLiteProps.upd m bd (TrEx.dblock w blk))) /\
+  (forall be e, CLiteProps.str_at m be e -> CLiteProps.bytes_lt256 e -> be <> bd ->
+   ex_arg s i (newbuf (length blk)) (ch0 e) (ch1 e) = Ok (i', w) ->
+   CLite.callf GenCFuncs.cprog fuel (S d) GenCFuncs.F_ex_arg
+     [CLite.VPtr bs (Z.of_nat i); CLite.VPtr bd 0%Z; CLite.VPtr be 0%Z] m
+   = CLite.Ok (CLite.VPtr bs (Z.of_nat i'), CLiteProps.upd m bd (TrEx.dblock w blk))).
+Proof.
+  intros m bs bd s blk i i' w d fuel Hs H256 Hd Hne Hf. split; [|split].
+  - intros Hl Hg H. exact (TrEx.tr_ex_loc m bs bd s blk i i' w d fuel Hs H256 Hd Hne Hl Hg H Hf).
+  - intros H. apply (TrEx.tr_ex_cmd m bs bd s blk i i' w d fuel Hs H256 Hd Hne H). apply (Nat.le_trans _ (2 * S (length s))); [|exact Hf]. apply Nat.le_add_r.
+  - intros be e He He256 Hbe H. apply (TrEx.tr_ex_arg m bs bd be s e blk i i' w d fuel Hs H256 Hd Hne He He256 Hbe H). apply (Nat.le_trans _ (2 * S (length s))); [|exact Hf]. apply Nat.le_add_r.
+Qed.
+Print Assumptions C05_tr_ex_scanners_refine_model.
+
+(* non-vacuity: a memory that satisfies the hypotheses (the program's global blocks, the line
+   `1,$s/a|b/c/|p`, three arrays of EXLEN indeterminate cells, the name "s"), and the translated functions
+   RUN on it one after the other as ex_exec calls them: loc = "1,$", cmd = "s", arg = "/a|b/c/" (the `|`
+   inside the pattern is not a separator), the next command starts at offset 12 *)
+Example C05_tr_runs :
+  let ln := [49; 44; 36; 115; 47; 97; 124; 98; 47; 99; 47; 124; 112]%N in
+  let G := length GenCFuncs.cglobals in
+  let arr := repeat CLite.VUndef excap in
+  let m0 := GenCFuncs.cglobals ++ [CLite.cstr_block (CLiteProps.zb ln); arr; arr; arr; CLite.cstr_block [115%Z]] in
+  CLiteProps.str_at m0 G ln /\ CLiteProps.bytes_lt256 ln /\ (Z.of_nat (length ln) < EXLEN)%Z /\
+  nth_error m0 (G + 1) = Some arr /\ Z.of_nat (length arr) = EXLEN /\
+  nth_error m0 TrEx.G_exloc = Some TrEx.gb_exloc /\ TrEx.G_exloc <> (G + 1)%nat /\
+  CLiteProps.str_at m0 (G + 4) [115%N] /\
+  match CLite.callf GenCFuncs.cprog 100 1 GenCFuncs.F_ex_loc [CLite.VPtr G 0%Z; CLite.VPtr (G + 1) 0%Z] m0 with
+  | CLite.Ok (CLite.VPtr _ o1, m1) =>
+    match CLite.callf GenCFuncs.cprog 100 1 GenCFuncs.F_ex_cmd [CLite.VPtr G o1; CLite.VPtr (G + 2) 0%Z] m1 with
+    | CLite.Ok (CLite.VPtr _ o2, m2) =>
+      match CLite.callf GenCFuncs.cprog 100 1 GenCFuncs.F_ex_arg [CLite.VPtr G o2; CLite.VPtr (G + 3) 0%Z; CLite.VPtr (G + 4) 0%Z] m2 with
+      | CLite.Ok (CLite.VPtr _ o3, m3) =>
+          (o1, o2, o3) = (3, 4, 12)%Z /\ TrEx.str_of m3 (G + 1) = [49; 44; 36]%Z /\ TrEx.str_of m3 (G + 2) = [115]%Z /\
+          TrEx.str_of m3 (G + 3) = [47; 97; 124; 98; 47; 99; 47]%Z
+      | _ => False end
+    | _ => False end
+  | _ => False end.
+Proof.
+  cbv zeta. split; [reflexivity|]. split; [repeat constructor|]. split; [reflexivity|]. split; [reflexivity|].
+  split; [reflexivity|]. split; [reflexivity|]. split; [vm_compute; discriminate|]. split; [reflexivity|].
+  vm_compute. repeat split; reflexivity.
+Qed.
+
+(* the translated text has teeth: a line of EXLEN address bytes (which the guard of ex_exec refuses) makes the
+   C text of ex_loc store outside loc[EXLEN] -- the checked semantics stops with EOob; one byte fewer fits *)
+Example C05_tr_overflow_without_guard :
+  let G := length GenCFuncs.cglobals in
+  CLite.callf GenCFuncs.cprog 2000 1 GenCFuncs.F_ex_loc [CLite.VPtr G 0%Z; CLite.VPtr (G + 1) 0%Z]
+    (GenCFuncs.cglobals ++ [CLite.cstr_block (repeat 49%Z excap); repeat CLite.VUndef excap]) = CLite.Err CLite.EOob /\
+  exists m', CLite.callf GenCFuncs.cprog 2000 1 GenCFuncs.F_ex_loc [CLite.VPtr G 0%Z; CLite.VPtr (G + 1) 0%Z]
+    (GenCFuncs.cglobals ++ [CLite.cstr_block (repeat 49%Z (excap - 1)); repeat CLite.VUndef excap])
+    = CLite.Ok (CLite.VPtr G (EXLEN - 1)%Z, m').
+Proof. cbv zeta. split; [vm_compute; reflexivity|]. eexists. vm_compute. reflexivity. Qed.
